@@ -91,6 +91,34 @@ def generate(g, tier):
         prog = [Assign('gflag', Lit(0)), FuncDef('walk', ['n'], body), helper, Call('walk', [Lit(depth)]), outer, Emit('end')]
         text, rd = render_ast(prog, g.units(), '', g.r if g.chance(0.3) else None)
         cases.append(dict(op='compile', src=dict(text=text), meta=dict(family='recursion', exp=list(expect_of(prog, rd)[:4]))))
+    # an arm whose body holds nothing but comments is an arm like any other: if it is the first true one, no later arm of the chain
+    # runs — with comments dropped (the default) and with comments kept, at top level, in a loop, in a function called from a loop
+    r_ = g.r
+    for _ in range(count(tier, 40, 300)):
+        narms = r_.randint(2, 4)
+        first_true = r_.randint(0, narms - 1)
+        comment_arm = r_.randint(0, narms - 1)
+        has_else = g.chance(0.6)
+        comments = g.chance(0.4)
+        lines, exp = ['VAR mode %d' % first_true], []
+        for i in range(narms):
+            kw = 'IF' if i == 0 else 'ELIF'
+            lines.append(f'{kw} mode == {i}')
+            if i == comment_arm:
+                lines += ['    REM only a note', '    REM and another']
+                if i == first_true and comments: exp += ['REM only a note', 'REM and another']
+            else:
+                lines.append(f'    STRING body-{i}')
+                if i == first_true: exp.append(f'STRING body-{i}')
+        if has_else:
+            lines += ['ELSE', '    STRING body-else']
+        lines.append('STRING after-chain'); exp.append('STRING after-chain')
+        wrap = r_.choice(['top', 'loop', 'func'])
+        if wrap == 'loop':
+            lines = [lines[0], 'REPEAT 2'] + ['    ' + l for l in lines[1:]]; exp = exp * 2
+        elif wrap == 'func':
+            lines = [lines[0], 'FUNC chain'] + ['    ' + l for l in lines[1:]] + ['REPEAT 2', '    RUN chain']; exp = exp * 2
+        cases.append(dict(op='compile', opts=dict(include_comments=comments), src=dict(text='\n'.join(lines)), meta=dict(family='comment-only-arm', exp=['ok', exp, [], None])))
     return cases
 
 
